@@ -5072,9 +5072,15 @@ class TLSConnection(TLSRecordLayer):
         expect_ccs_message = True
         # If we use SessionTicket resumption on client side, there are multiple
         # situations where the server has the option to send new ticket
-        for result in self._getMsg(
-                (ContentType.handshake, ContentType.change_cipher_spec),
-                HandshakeType.new_session_ticket):
+        if self._client:
+            expected_type = (ContentType.handshake,
+                             ContentType.change_cipher_spec)
+            secondary_type = HandshakeType.new_session_ticket
+        else:
+            # only servers send NewSessionTicket messages
+            expected_type = ContentType.change_cipher_spec
+            secondary_type = None
+        for result in self._getMsg(expected_type, secondary_type):
             if result in (0, 1):
                 yield result
             else: break
